@@ -1,5 +1,8 @@
 import BlobfinderModel.Properties.C06
+import BlobfinderModel.Properties.C05
 import BlobfinderModel.Model.Fullmatch
+import BlobfinderModel.Model.Tumble
+import BlobfinderModel.Proofs.FastExact
 /-!
 # C12 — full matching partitions the peaks and returns self-consistent matches  (partial)
 
@@ -9,8 +12,13 @@ or in exactly one match; weak non-zero peaks are in neither; the zero point is n
 unmatched once a match exists; each matching step removes the matched non-zero peaks from the
 working set (progress measure).  The post-conditions of a returned match come from the final
 `check` after the final `weighted_optimize` in `_tumble` (source pinned) together with C06.
-**Not proved** (oracle only): that a noise-free lattice of ≤ 10 points is matched completely by the
-first match (depends on the figure of merit and float geometry).
+One candidate pair of `_do_match` (`_match_all` + `_tumble`) is modelled in exact arithmetic
+(`Model.tumble`, compared with the real `_tumble` on every run): its result passes `check`, has at
+least `min_match` peaks of the working set, integer indices, and is the weighted least-squares fit
+of its own peaks (`tumble_post`); from a candidate pair whose first round catches only node peaks
+of a noise-free lattice it returns the exact lattice with all strong node peaks (`tumble_exact`).
+**Not proved** (oracle only): that the figure of merit prefers that candidate, i.e. that a
+noise-free lattice of ≤ 10 points is matched completely by the *first* match.
 -/
 namespace C12
 open Model
@@ -186,5 +194,149 @@ example :
       [some (fun k => k ≤ 2), none]
     r.ms.length = 1 ∧ r.unmatched 3 = true ∧ r.unmatched 0 = false ∧ r.unmatched 1 = false ∧ r.weak 4 = true := by
   decide
+
+/-! ### one candidate pair of `_do_match`: `_match_all` followed by `_tumble` -/
+
+/-- `check`, spelled out: enough peaks, both lengths within `[min_delta, max_delta]`, and the angle
+between the vectors (mod π) strictly between `min_angle` and `π - min_angle` -/
+theorem check_char (P : CheckP) (n : ℕ) (a b : V2) :
+    checkM P n a b = true ↔
+      P.minMatch ≤ (n : ℤ) ∧ lenOk P (norm2 a) = true ∧ lenOk P (norm2 b) = true ∧
+      P.sin2 * (norm2 a * norm2 b) < det2 a b * det2 a b := by
+  unfold checkM
+  simp only [Bool.and_eq_true, decide_eq_true_eq, and_assoc]
+
+theorem lenOk_char (P : CheckP) (n2 : ℚ) :
+    lenOk P n2 = true ↔ P.minD2 ≤ n2 ∧ (∀ m, P.maxD2 = some m → n2 ≤ m) := by
+  unfold lenOk
+  cases h : P.maxD2 with
+  | none => simp
+  | some m => simp
+
+theorem countTrue_map (peaks : List Peak) (S : Peak → Bool) :
+    countTrue (peaks.map S) = (peaks.filter S).length := by
+  unfold countTrue
+  induction peaks with
+  | nil => simp
+  | cons p t ih =>
+    simp only [List.map_cons, List.filter_cons]
+    cases S p <;> simp [ih]
+
+/-- **post-conditions of every match `_tumble` returns**: it passes `check` (≥ `min_match` peaks,
+lengths and angle in range), its peaks belong to the working selection, it has one integer index pair
+per selected peak, and its lattice satisfies the weighted normal equations of its own peaks in both
+coordinates (hence is their weighted least-squares optimum, `C06.lsq_optimal`). -/
+theorem tumble_post (P : CheckP) (peaks : List Peak) (sel : List Bool) (tol : ℚ) (z a b z2 a2 b2 : V2)
+    (m : List Bool) (idx : List (ℤ × ℤ)) (hlen : sel.length = peaks.length)
+    (h : tumble P peaks sel tol z a b = .some z2 a2 b2 m idx) :
+    checkM P (countTrue m) a2 b2 = true ∧ P.minMatch ≤ (countTrue m : ℤ) ∧
+    m.length = peaks.length ∧ idx.length = countTrue m ∧
+    (∀ k (hk : k < m.length), m[k] = true → ∃ hs : k < sel.length, sel[k] = true) ∧
+    NormalEqs z2.1 a2.1 b2.1 (obsFor peaks m idx (·.1)) ∧
+    NormalEqs z2.2 a2.2 b2.2 (obsFor peaks m idx (·.2)) := by
+  unfold tumble at h
+  cases hm0 : matchAll peaks sel z a b tol with
+  | none => rw [hm0] at h; exact absurd h (by simp)
+  | some r0 =>
+    obtain ⟨m0, idx0⟩ := r0
+    rw [hm0] at h
+    simp only [] at h
+    by_cases c0 : checkM P (countTrue m0) a b = true
+    swap
+    · simp [c0] at h
+    simp only [c0, Bool.not_true, Bool.false_eq_true, if_false] at h
+    cases hw1 : weightedOptimize peaks m0 idx0 with
+    | none => rw [hw1] at h; exact absurd h (by simp)
+    | some zab =>
+      obtain ⟨z1, a1, b1⟩ := zab
+      rw [hw1] at h
+      simp only [] at h
+      by_cases c1 : checkM P (countTrue m0) a1 b1 = true
+      swap
+      · simp [c1] at h
+      simp only [c1, Bool.not_true, Bool.false_eq_true, if_false] at h
+      cases h2 : matchAll peaks sel z1 a1 b1 tol with
+      | none => rw [h2] at h; exact absurd h (by simp)
+      | some r2 =>
+        obtain ⟨m2, idx2⟩ := r2
+        rw [h2] at h
+        simp only [] at h
+        by_cases c2 : checkM P (countTrue m2) a1 b1 = true
+        swap
+        · simp [c2] at h
+        simp only [c2, Bool.not_true, Bool.false_eq_true, if_false] at h
+        cases hw : weightedOptimize peaks m2 idx2 with
+        | none => rw [hw] at h; exact absurd h (by simp)
+        | some zab2 =>
+          obtain ⟨zz, aa, bb⟩ := zab2
+          rw [hw] at h
+          simp only [] at h
+          by_cases c3 : checkM P (countTrue m2) aa bb = true
+          swap
+          · simp [c3] at h
+          simp only [c3, Bool.not_true, Bool.false_eq_true, if_false, TumbleResult.some.injEq] at h
+          obtain ⟨rfl, rfl, rfl, rfl, rfl⟩ := h
+          have hcounts := C05.matched_counts peaks sel z1 a1 b1 tol m2 idx2 h2 hlen
+          refine ⟨c3, ((check_char P (countTrue m2) _ _).mp c3).1, hcounts.1, hcounts.2, ?_, ?_, ?_⟩
+          · intro k hk hmk
+            exact C05.matched_subset peaks sel z1 a1 b1 tol m2 idx2 h2 k hk hmk
+          · unfold weightedOptimize at hw
+            split at hw
+            · rename_i zy ay by_ zx ax bx hy hx
+              simp only [Option.some.injEq, Prod.mk.injEq] at hw
+              obtain ⟨rfl, rfl, rfl⟩ := hw
+              exact C06.cramer_solves_normal_eqs _ _ _ _ hy
+            · exact absurd hw (by simp)
+          · unfold weightedOptimize at hw
+            split at hw
+            · rename_i zy ay by_ zx ax bx hy hx
+              simp only [Option.some.injEq, Prod.mk.injEq] at hw
+              obtain ⟨rfl, rfl, rfl⟩ := hw
+              exact C06.cramer_solves_normal_eqs _ _ _ _ hx
+            · exact absurd hw (by simp)
+
+/-- **a noise-free lattice is recovered exactly by `_tumble` from a working candidate pair**
+(first iteration of the full match: the working selection is "elevation ≥ min_weight").  Hypotheses as in
+`C05.fastmatch_exact_recovery` — node peaks lie exactly on the true lattice, other strong peaks are
+rejected by it, whatever the candidate `(z0, a0, b0)` catches in its first round is a node peak with its
+true indices, rank 3 — plus the three `check`s the procedure performs on the way that involve the
+candidate and the true lattice.  Then the result is the exact lattice, exactly the strong node peaks,
+their true indices: the match "contains all lattice points with error 0". -/
+theorem tumble_exact (P : CheckP) (peaks : List Peak) (z a b z0 a0 b0 : V2) (tol mw : ℚ)
+    (node : Peak → Option (ℤ × ℤ))
+    (hd : det2 a b ≠ 0) (hd0 : det2 a0 b0 ≠ 0) (htol : 0 < tol) (hmw : 0 ≤ mw)
+    (hnode : ∀ p ∈ peaks, ∀ i j, node p = some (i, j) → p.pos = calcCoord z a b ((i : ℚ), (j : ℚ)))
+    (hout : ∀ p ∈ peaks, node p = none → mw ≤ p.elev → isMatched a b tol (ix z a b p) = false)
+    (h1 : ∀ p ∈ peaks, mw ≤ p.elev → isMatched a0 b0 tol (ix z0 a0 b0 p) = true →
+      node p = some (rix z0 a0 b0 p))
+    (hrank : (normalOf ((peaks.filter (selBy (fun p => Gen.fm_weight_ok p.elev mw) z0 a0 b0 tol)).map
+      fun p => ⟨((rix z0 a0 b0 p).1 : ℚ), ((rix z0 a0 b0 p).2 : ℚ), p.elev, 0⟩)).det ≠ 0)
+    (hc0 : checkM P (peaks.filter (selBy (fun p => Gen.fm_weight_ok p.elev mw) z0 a0 b0 tol)).length a0 b0 = true)
+    (hc1 : checkM P (peaks.filter (selBy (fun p => Gen.fm_weight_ok p.elev mw) z0 a0 b0 tol)).length a b = true)
+    (hc2 : checkM P (peaks.filter (fun p => Gen.fm_weight_ok p.elev mw && (node p).isSome)).length a b = true) :
+    tumble P peaks (peaks.map fun p => Gen.fm_weight_ok p.elev mw) tol z0 a0 b0
+      = .some z a b (peaks.map fun p => Gen.fm_weight_ok p.elev mw && (node p).isSome)
+          ((peaks.filter fun p => Gen.fm_weight_ok p.elev mw && (node p).isSome).map
+            fun p => (node p).getD (0, 0)) := by
+  obtain ⟨hfit1, hmap2, hfil2, hidx2, hfit2, _⟩ :=
+    exact_stages peaks z a b z0 a0 b0 tol mw node hd htol hmw hnode hout h1 hrank
+  unfold tumble
+  rw [matchAll_eq peaks (fun p => Gen.fm_weight_ok p.elev mw) z0 a0 b0 tol hd0]
+  simp only [countTrue_map, hc0, Bool.not_true, Bool.false_eq_true, if_false, hfit1, hc1]
+  rw [matchAll_eq peaks (fun p => Gen.fm_weight_ok p.elev mw) z a b tol hd, hmap2, hfil2, hidx2]
+  simp only [countTrue_map, hc2, Bool.not_true, Bool.false_eq_true, if_false, hfit2]
+
+/-- non-vacuity, evaluated in the kernel: the 7-peak example of C05 (five strong node peaks of a 10 px square
+lattice, a weak node peak, a half-cell outlier; candidate vectors off by ±1/5 px, zero point exact) through
+`_match_all` + `_tumble` with `min_match = 3`, lengths in [5, 20] px and `sin²(min_angle) = 1/10` -/
+example :
+    tumble ⟨3, 25, some 400, 1 / 10⟩
+      [⟨(0, 0), 1⟩, ⟨(10, 0), 2⟩, ⟨(5, 5), 3⟩, ⟨(0, 10), 1⟩, ⟨(20, 20), 0⟩, ⟨(10, 10), 1⟩, ⟨(20, 10), 2⟩]
+      (([⟨(0, 0), 1⟩, ⟨(10, 0), 2⟩, ⟨(5, 5), 3⟩, ⟨(0, 10), 1⟩, ⟨(20, 20), 0⟩, ⟨(10, 10), 1⟩, ⟨(20, 10), 2⟩] : List Peak).map
+        fun p => Gen.fm_weight_ok p.elev (1 / 10))
+      3 (0, 0) (10 + 1 / 5, 0) (0, 10 - 1 / 5)
+    = .some (0, 0) (10, 0) (0, 10) [true, true, false, true, false, true, true]
+        [(0, 0), (1, 0), (0, 1), (1, 1), (2, 1)] := by
+  decide +kernel
 
 end C12
